@@ -133,7 +133,7 @@ def render(n, depth=0):
     if k == "Assign":
         return "%s = %s" % (r(n["l"]), r(n["r"]))
     if k == "AssignOp":
-        return "%s %s= %s" % (r(n["l"]), n["op"], r(n["r"]))
+        return "%s %s %s" % (r(n["l"]), n["op"], r(n["r"]))
     if k == "Ret":
         return "return %s" % r(n.get("e"))
     if k == "Break":
